@@ -60,6 +60,21 @@ class C10(Prop):
             n = rng.randint(1, 3); m = rng.choice([129, 130, 200, 257, 300])
             yield self.mk("wide", V.RULES[i % 5], ["score", "scf", "swf"][i % 3], V.rand_profile(rng, n, m), rng.randint(1, m), bool(i % 2), tb=V.TBS[i % 3],
                           dtype=["int64", "int32", "float"][i % 3])
+        # 10 to 13 alternatives (two-digit ranks): electorates built from a ballot and copies of it with two ADJACENT columns exchanged, among them the pairs of
+        # columns whose ranks read the same when written side by side (1|11 and 11|1, 1|12 and 11|2, 2|11 and 21|1 ...); anything keyed on a textual form of a ballot
+        for i in range(40 if tier == "quick" else 600):
+            m = [11, 12, 13, 10][i % 4]; base = rng.sample(range(1, m + 1), m)
+            if i % 2 == 0:      # put ranks 1 and 11 (or 1 and 12 next to 11 and 2) side by side
+                a, b = base.index(1), base.index(11 if m >= 11 else 10)
+                c0 = rng.randrange(m - 1); others = [x for x in base if x not in (base[a], base[b])]
+                base = others[:c0] + [1, 11 if m >= 11 else 10] + others[c0:]
+            P = [list(base)]
+            for _ in range(rng.randint(1, 4)):
+                r = list(rng.choice(P)); c = rng.randrange(m - 1)
+                if i % 2 == 0 and len(P) == 1: c = r.index(1)      # the planted pair first
+                if c + 1 < m: r[c], r[c + 1] = r[c + 1], r[c]
+                P.append(r)
+            yield self.mk("two_digit_ranks", V.RULES[i % 5], ["score", "scf", "swf"][i % 3], P, rng.randint(1, m), bool(i % 2), tb=V.TBS[i % 3], dtype=["int64", "int32", "float"][i % 3])
         # large electorates decided by one vote (ballots with multiplicities), with a differently sized profile fed to the same rule object first
         for i in range(40 if tier == "quick" else 400):
             m = rng.randint(2, 4); base = rng.choice([1000, 70000, 150000, 300000])
